@@ -193,7 +193,9 @@ FACT = {
 def _pinned(chk, fn, *a) -> None:
     """Run a pinned-form rule group as a fallback: its findings in a rewritten function are 'idiom not recognised', not verdicts."""
     saved = set(chk.robust)
-    chk.robust -= FACT
+    # the pinned group reads locals by the names they have at the reference commit: in a rewritten function none of its findings is a
+    # verdict, the closed-world and orientation rules included (they abstain with `idiom not recognised`)
+    chk.robust -= FACT | {"label-orientation", "edge-exclusive", "select-extra-filter", "select-class", "select-min-contacts", "angle-window", "same-residue-identity", "cis-trans", "cis-trans-atoms"}
     try:
         fn(*a)
     finally:
